@@ -4,7 +4,7 @@ Engine M over the MIR of the `cooklang-bindings` crate: into_group_quantity, mer
 Entry::and_modify closure), add_to_ingredient_list, expand_with_ingredients, combine_ingredients_selected.
 Strings are abstract identities (only their equality is observable to this code), hash maps are short entry lists
 with symbolic key equality (lib/mapmodel.py).  The FFI *view* half of C19 (into_simple_recipe & co.) is not decided."""
-import os, json, subprocess, time
+import os, json, subprocess, time, re
 import scratch, native, mcheck, mir, smt, models, mapmodel
 from mir import SV, Agg, Enum, Opaque, OpenAgg, VecVal, MapVal
 import c08
@@ -17,7 +17,7 @@ def load_bindings_mir(run, scr, ms):
     dev = os.environ.get("VERIF_DEV_MIR_B")      # development shortcut only: never set by registered commands
     if dev:
         ms.dump = mir.MirDump(open(os.path.join(dev, "bind-mir.txt")).read())
-        ms.decls = mir.TypeDecls(os.path.join(dev, "repo", "bindings", "src"))
+        ms.decls = mir.TypeDecls(os.path.join(dev, "repo", "bindings", "src"), extra=[("cooklang", os.path.join(dev, "repo", "src"))])
         return
     out = os.path.join(scr.dir, "bind-mir.txt")
     env = dict(os.environ)
@@ -30,7 +30,7 @@ def load_bindings_mir(run, scr, ms):
     if p.returncode != 0 or os.path.getsize(out) < 1000:
         raise mir.Unsupported("MIR dump of cooklang-bindings failed (see %s.err)" % out)
     ms.dump = mir.MirDump(open(out).read())
-    ms.decls = mir.TypeDecls(os.path.join(scr.repo, "bindings", "src"))
+    ms.decls = mir.TypeDecls(os.path.join(scr.repo, "bindings", "src"), extra=[("cooklang", os.path.join(scr.repo, "src"))])
     run.log("MIR dump (bindings): %d functions in %.0fs" % (sum(len(v) for v in ms.dump.fns.values()), time.time() - t0))
 
 
@@ -297,8 +297,10 @@ def combine_part(run, ms, items, shape):
         num = c08.sym_float_mag(sem, "%s_amt%d" % (sem.prefix, i))
         val = Enum("Value", SV("isize", "0"), {"Number": Agg("Value::Number", {"0": SV("f64", num)})}, KINDS)
         amount = Agg("Amount", {str(af.index("quantity")): val, str(af.index("units")): models.mk_option(it, SV("isize", "1"), un)})
-        ing = OpenAgg("Ingredient", {str(inf.index("name")): nm, str(inf.index("amount")): models.mk_option(it, SV("isize", "1"), amount)})
-        ing.nm, ing.un, ing.num = nm, un, num
+        # the last ingredient may be a bare mention (no amount)
+        has = sem.sym_int("%s_has%d" % (sem.prefix, i), "isize", 0, 1) if i == n_ing - 1 else "1"
+        ing = OpenAgg("Ingredient", {str(inf.index("name")): nm, str(inf.index("amount")): models.mk_option(it, SV("isize", has), amount)})
+        ing.nm, ing.un, ing.num, ing.has = nm, un, num, has
         ings.append(ing)
     sel = [SV("u32", sem.sym_int("sel%d" % j, "u32", 0, n_ing - 1)) for j in range(n_sel)]
     distinct = ["(not (= %s %s))" % (sel[a].expr, sel[b].expr) for a in range(n_sel) for b in range(a)]
@@ -324,7 +326,13 @@ def combine_part(run, ms, items, shape):
         for i, ing in enumerate(ings):
             selected_i = "(or %s)" % " ".join("(= %s %d)" % (s.expr, i) for s in sel)
             # find the value stored under (name_i, unit_i, Number)
-            found = []
+            found, empties = [], []
+            for (lname, group) in lst.entries:
+                if isinstance(group, MapVal):
+                    for (gk, gv) in group.entries:
+                        if isinstance(gv, Enum):
+                            empties.append("(and %s (= %s 0) (= %s 3) (= %s 3))" % (w.str_eq(lname, ing.nm), w.str_expr(gk.fields[str(w.kf.index("name"))]),
+                                                                                      gk.fields[str(w.kf.index("unit_type"))].discr.expr, gv.discr.expr))
             for (lname, group) in lst.entries:
                 if not isinstance(group, MapVal):
                     continue
@@ -342,7 +350,7 @@ def combine_part(run, ms, items, shape):
             acc_terms = []
             for j, s in enumerate(sel):
                 # amount of the j-th selected ingredient if it shares (name, unit) with ingredient i, else "absent"
-                share = "(or %s)" % " ".join("(and (= %s %d) %s %s)" % (s.expr, k2, w.str_eq(o2.nm, ing.nm), w.str_eq(o2.un, ing.un)) for k2, o2 in enumerate(ings))
+                share = "(or %s)" % " ".join("(and (= %s %d) (= %s 1) %s %s)" % (s.expr, k2, o2.has, w.str_eq(o2.nm, ing.nm), w.str_eq(o2.un, ing.un)) for k2, o2 in enumerate(ings))
                 amt = "0.0"
                 for k2, o2 in reversed(list(enumerate(ings))):
                     amt = "(ite (= %s %d) %s %s)" % (s.expr, k2, o2.num, amt)
@@ -359,16 +367,182 @@ def combine_part(run, ms, items, shape):
             for a_ in range(len(found)):
                 for b_ in range(a_):
                     exactly_one.append("(not (and %s %s))" % (found[a_][0], found[b_][0]))
-            conds.append("(=> %s (and (or %s) %s))" % (selected_i, " ".join(slot_ok) or "false", " ".join(exactly_one) or "true"))
-            conds.append("(=> (not (or %s)) (not (or %s)))" % (" ".join("(and (= %s %d) %s %s)" % (s.expr, k2, w.str_eq(o2.nm, ing.nm), w.str_eq(o2.un, ing.un))
+            conds.append("(=> (and %s (= %s 1)) (and (or %s) %s))" % (selected_i, ing.has, " ".join(slot_ok) or "false", " ".join(exactly_one) or "true"))
+            # a selected bare mention is listed too: an `Empty` entry under its name and the empty unit
+            conds.append("(=> (and %s (= %s 0)) (or %s))" % (selected_i, ing.has, " ".join(empties) or "false"))
+            conds.append("(=> (not (or %s)) (not (or %s)))" % (" ".join("(and (= %s %d) (= %s 1) %s %s)" % (s.expr, k2, o2.has, w.str_eq(o2.nm, ing.nm), w.str_eq(o2.un, ing.un))
                                                                          for s in sel for k2, o2 in enumerate(ings)),
                                                               " ".join(ss for ss, _, _ in found) or "false"))
         items.append((D, "%s path[%s]: under each (name, unit) the list holds one number, the sum of the selected amounts with that name and unit "
-                         "(each index once, within float rounding); nothing for names/units that were not selected" % (tag, p),
+                         "(each index once, within float rounding), a selected bare mention is listed as an Empty entry; nothing for names/units that were not selected" % (tag, p),
                       pcs + ["(not (and %s))" % " ".join(conds)], "unsat"))
     if n == 0:
         run.inconclusive.append("%s: no returning path" % tag)
     return w
+
+
+# ----------------------------------------------------------------------------------------------------------------------
+# the view half: into_simple_recipe / into_item / the From impls, on recipes of a fixed shape with symbolic content
+
+def view_part(run, ms, items, shape):
+    """shape: list of sections, each a list of contents: "T" (text block) or an int n (a step with n items of symbolic kind)"""
+    d = ms.decls
+    w = W(ms, "v%d" % len(items))
+    it, sem = w.it, w.sem
+    it.lenient = True
+    it.abstract_fns = [r"^cooklang::", r"^<cooklang::", r"^Recipe::<", r"Quantity::<.*>::(value|unit)$", r"Number::value$"]
+    it.models.update({
+        r"^<&Vec<.*> as IntoIterator>::into_iter$": lambda it_, a, c: models.IterVal(list(mapmodel._val(it_, a[0]).items)),
+        r"^<std::slice::Iter<'_, .*> as Iterator>::next$": models.m_iter_next,
+        r"^<std::slice::Iter<'_, .*> as Iterator>::map::<": models.m_iter_map,
+        r"^<(std::iter::)?Map<std::slice::Iter<'_, .*>, .*> as Iterator>::collect::<Vec<": models.m_iter_collect,
+        r"^<&serde_yaml::mapping::Mapping as IntoIterator>::into_iter$": lambda it_, a, c: models.IterVal([]),
+        r"^<serde_yaml::mapping::Iter<'_> as Iterator>::next$": models.m_iter_next,
+        r"^<Vec<u32> as (std::iter::)?Extend<u32>>::extend::<Vec<u32>>$": m_vec_extend,
+        r"^<&cooklang::(Ingredient|Cookware|Timer) as Into<model::(Ingredient|Cookware|Timer)>>::into$": m_into_via_from,
+        r"^(std::option::)?Option::<(std::string::)?String>::unwrap_or_default$": lambda it_, a, c: Opaque("unwrap_or_default", [a[0]]),
+    })
+    f = ms.dump.find(r"^(model::)?into_simple_recipe$")
+    inames = [v for v, _ in d.enums.lookup("Item", "cooklang")]
+    cnames = [v for v, _ in d.enums.lookup("Content", "cooklang")]
+    secf, stepf = d.structs.lookup("Section", "cooklang::model"), d.structs.lookup("Step", "cooklang::model")
+    recf = d.structs.lookup("Recipe", "cooklang::model")
+    sections, facts = [], []
+    for si, sec in enumerate(shape):
+        contents = []
+        for ci, c in enumerate(sec):
+            if c == "T":
+                tok = Opaque("text of block %d.%d" % (si, ci))
+                contents.append(Enum("Content", SV("isize", str(cnames.index("Text"))), {"Text": Agg("Content::Text", {"0": tok})}, cnames))
+                facts.append(("T", tok))
+                continue
+            its = []
+            for k in range(c):
+                kind = sem.sym_int("k_%d_%d_%d" % (si, ci, k), "isize", 0, len(inames) - 1)
+                idx = sem.sym_int("i_%d_%d_%d" % (si, ci, k), "usize", 0, 2 ** 31)
+                txt = Opaque("text of item %d.%d.%d" % (si, ci, k))
+                its.append(Enum("Item", SV("isize", kind), {n: Agg("Item::" + n, {"0": txt if n == "Text" else SV("usize", idx)}) for n in inames}, inames))
+                its[-1].kind, its[-1].idx, its[-1].txt = kind, idx, txt
+            step = Agg("Step", {str(stepf.index("items")): VecVal(its), str(stepf.index("number")): SV("u32", "1")})
+            contents.append(Enum("Content", SV("isize", str(cnames.index("Step"))), {"Step": Agg("Content::Step", {"0": step})}, cnames))
+            facts.append(("S", its))
+        title = models.mk_option(it, SV("isize", sem.sym_int("named_%d" % si, "isize", 0, 1)), Opaque("name of section %d" % si))
+        sections.append(Agg("Section", {str(secf.index("name")): title, str(secf.index("content")): VecVal(contents)}))
+        sections[-1].title, sections[-1].facts = title, facts
+        facts = []
+    ing = OpenAgg("Ingredient", {})
+    cw = OpenAgg("Cookware", {})
+    tm = OpenAgg("Timer", {})
+    recipe = OpenAgg("Recipe", {str(recf.index("sections")): VecVal(sections), str(recf.index("ingredients")): VecVal([ing]),
+                                str(recf.index("cookware")): VecVal([cw]), str(recf.index("timers")): VecVal([tm]),
+                                str(recf.index("metadata")): OpenAgg("Metadata", {})})
+    outs = it.run(f, [recipe])
+    D = sem.decls
+    crf = d.structs.lookup("CooklangRecipe", "model")
+    bsec, bstep = d.structs.lookup("Section", "model"), d.structs.lookup("Step", "model")
+    bnames = [v for v, _ in d.enums.lookup("Block", "model")]
+    onames = [v for v, _ in d.enums.lookup("Item", "model")]
+    tag = "into_simple_recipe(%s)" % "|".join(",".join(str(c) for c in sec) for sec in shape)
+    n = 0
+    for o in outs:
+        p = ">".join(o.trace[-2:])
+        pcs = mcheck.pc_assert(o.pc)
+        if o.kind == "panic":
+            items.append((D, "%s never panics: %s" % (tag, str(o.msg)[:40]), pcs, "unsat"))
+            continue
+        if o.kind != "return":
+            continue
+        n += 1
+        out = o.value
+        conds = []
+
+        def lst(v):
+            return v.items if isinstance(v, VecVal) else None
+
+        def u32s(v, want):
+            """v is the list of the given index expressions (as u32)"""
+            xs = lst(v)
+            if xs is None or len(xs) != len(want):
+                return "false"
+            return c08.conj(["(= %s %s)" % (x.expr, e) if isinstance(x, SV) else "false" for x, e in zip(xs, want)])
+        osecs = lst(out.fields[str(crf.index("sections"))]) if isinstance(out, Agg) else None
+        if osecs is None or len(osecs) != len(sections):
+            conds.append("false")
+        else:
+            for sec, osec in zip(sections, osecs):
+                conds.append(c08.same(osec.fields[str(bsec.index("title"))], sec.title))
+                blocks = lst(osec.fields[str(bsec.index("blocks"))])
+                if blocks is None or len(blocks) != len(sec.facts):
+                    conds.append("false")
+                    continue
+                sec_lists = {"IngredientRef": [], "CookwareRef": [], "TimerRef": []}
+                for (kind, data), blk in zip(sec.facts, blocks):
+                    if not isinstance(blk, Enum) or not re.match(r"^\d+$", blk.discr.expr):
+                        conds.append("false")
+                        continue
+                    bname = bnames[int(blk.discr.expr)]
+                    if kind == "T":
+                        ok = bname == "NoteBlock" and blk.variants[bname].fields["0"].fields["0"] is data
+                        conds.append("true" if ok else "false")
+                        continue
+                    if bname != "StepBlock":
+                        conds.append("false")
+                        continue
+                    st = blk.variants[bname].fields["0"]
+                    oitems = lst(st.fields[str(bstep.index("items"))])
+                    if oitems is None or len(oitems) != len(data):
+                        conds.append("false")
+                        continue
+                    # the path condition fixes each item's kind: read it off the output item and tie it to the input item
+                    per = {"IngredientRef": [], "CookwareRef": [], "TimerRef": []}
+                    for src, oi in zip(data, oitems):
+                        if not isinstance(oi, Enum) or not re.match(r"^\d+$", oi.discr.expr):
+                            conds.append("false")
+                            continue
+                        on = onames[int(oi.discr.expr)]
+                        payload = oi.variants[on].fields["0"]
+                        if on == "Text":
+                            is_txt = "(= %s %d)" % (src.kind, inames.index("Text"))
+                            is_inl = "(= %s %d)" % (src.kind, inames.index("InlineQuantity"))
+                            same_txt = "true" if payload is src.txt else "false"
+                            conds.append("(or (and %s %s) %s)" % (is_txt, same_txt, is_inl))
+                        else:
+                            want_kind = {"IngredientRef": "Ingredient", "CookwareRef": "Cookware", "TimerRef": "Timer"}[on]
+                            e = payload.expr if isinstance(payload, SV) else None
+                            conds.append("(and (= %s %d) %s)" % (src.kind, inames.index(want_kind), "(= %s (mod %s 4294967296))" % (e, src.idx) if e else "false"))
+                            per[on].append(e or "0")
+                    for on, fld in (("IngredientRef", "ingredient_refs"), ("CookwareRef", "cookware_refs"), ("TimerRef", "timer_refs")):
+                        conds.append(u32s(st.fields[str(bstep.index(fld))], per[on]))
+                        sec_lists[on] += per[on]
+                for on, fld in (("IngredientRef", "ingredient_refs"), ("CookwareRef", "cookware_refs"), ("TimerRef", "timer_refs")):
+                    conds.append(u32s(osec.fields[str(bsec.index(fld))], sec_lists[on]))
+        for fld, src in (("ingredients", ing), ("cookware", cw), ("timers", tm)):
+            xs = lst(out.fields[str(crf.index(fld))]) if isinstance(out, Agg) else None
+            conds.append("true" if (xs is not None and len(xs) == 1) else "false")
+        items.append((D, "%s path[%s]: sections, blocks and step items mirror the core recipe in order (text blocks as notes, inline quantities as "
+                         "empty text, indices unchanged); each step lists the components its items refer to, in order; each section's lists are "
+                         "the concatenation of its steps' lists; every component is carried over" % (tag, p),
+                      pcs + ["(not %s)" % c08.conj(conds)], "unsat"))
+    if n == 0:
+        run.inconclusive.append("%s: no returning path" % tag)
+    return w
+
+
+def m_vec_extend(it, args, callee):
+    cur = it.deref(args[0], it.cur_env)
+    add = mapmodel._val(it, args[1])
+    env2 = mir.fork_env(it.cur_env)
+    it.write_ref(args[0], VecVal(list(cur.items) + list(add.items)), env2)
+    return [([], Opaque("unit"), "return", None, {"env": env2})]
+
+
+def m_into_via_from(it, args, callee):
+    """`<&A as Into<B>>::into` is the blanket impl over `<B as From<&A>>::from`, whose body is in the dump"""
+    m = re.match(r"^<(.*) as Into<(.*)>>::into$", callee)
+    target = it.auto_resolve("<%s as From<%s>>::from" % (m.group(2), m.group(1)), args)
+    if target is None:
+        raise mir.Unsupported("no From impl found for %s" % callee)
+    return it.call_inlined(target, args, 2)
 
 
 SCENARIOS = [
@@ -382,6 +556,8 @@ SCENARIOS = [
      [0, 1, 2, 3, 4, 5, 6],
      {("w", "l", "Range"): [1.5, 6.0], ("w", "l", "Number"): 3.0, ("w", "l", "Text"): "somemore", ("w", "", "Empty"): None, ("w", "", "Number"): 2.0}),
     ([("x", 1.0, "g"), ("x", "<empty>", "g"), ("x", "<empty>", "g")], [1, 0, 2], {("x", "g", "Number"): 1.0, ("x", "g", "Empty"): None}),
+    ([("salt", 5.0, "g"), ("salt", None, None)], [0, 1], {("salt", "g", "Number"): 5.0, ("salt", "", "Empty"): None}),
+    ([("salt", 5.0, "g"), ("salt", None, None)], [1, 0], {("salt", "g", "Number"): 5.0, ("salt", "", "Empty"): None}),
 ]
 
 
@@ -414,6 +590,26 @@ def scenarios(run, nat):
     return bad
 
 
+VIEW_CASES = [
+    "Mix @salt{1%g} in #bowl{} for ~{5%min}.\\n\\n> a note\\n\\nAdd @pepper and @salt{2%g} to #pan{}.\\n",
+    "= A\\nStep @a{} #p{}\\n\\n= B\\n> note first\\n\\nThen @b{} ~t{1%min} and @a{}\\n\\nLast #p{} step.\\n",
+    "> only a note\\n",
+    "One @x{1} ~{2%min} #y{} two @z{3%g}(chopped) ~rest{1%h}.\\n",
+]
+
+
+def view_scenarios(run, nat):
+    bad = []
+    for text in VIEW_CASES:
+        r = nat.call_bindings("view", text)
+        run.traces_validated += 1
+        if not isinstance(r, dict) or "error" in r or r.get("panic"):
+            bad.append("%r: %s" % (text, str(r)[:200]))
+        else:
+            bad += ["%r: %s" % (text, p) for p in r.get("problems", [])]
+    return bad
+
+
 def check(run):
     scr = scratch.Scratch()
     scr.copy_repo()
@@ -433,14 +629,21 @@ def check(run):
             merge_part(run, ms, items, nl, nr)
         for shape in ([(2, 2), (3, 2)] if run.tier == "quick" else [(2, 2), (3, 2), (3, 3), (4, 3)]):
             combine_part(run, ms, items, shape)
+        run.functions += ["bindings model::into_simple_recipe, into_item, From<&cooklang::{Ingredient,Cookware,Timer}> (MIR)"]
+        abstracted = set()
+        for shape in ([[[1, "T", 1]], [[2], ["T"]]] if run.tier == "quick" else [[[1, "T", 1]], [[2], ["T"]], [[1, 1, "T", 1]], [[2, 2]], [["T", 1], [1]]]):
+            wv = view_part(run, ms, items, shape)
+            abstracted |= set(getattr(wv.it, "abstracted_calls", ()))
+        run.assumptions.append("view half: uninterpreted in the encoding: " + ", ".join(sorted(abstracted))[:800])
     except mir.Unsupported as e:
         run.inconclusive.append("encoder: %s" % e)
 
     def on_sat(name):
         def cb(model, ob, item):
-            bad = scenarios(run, nat)
+            bad = view_scenarios(run, nat) if "into_simple_recipe" in name else scenarios(run, nat)
             if bad:
-                run.violation("kernel=bindings::combine scenario", "; ".join(bad[:2])[:700], dict(engine="mir-smt", replay="combine"))
+                run.violation("kernel=bindings::%s scenario" % ("view" if "into_simple_recipe" in name else "combine"), "; ".join(bad[:2])[:700],
+                              dict(engine="mir-smt", replay="view" if "into_simple_recipe" in name else "combine"))
                 ob["status"] = "violated"
             else:
                 run.inconclusive.append("C19 %s: candidate does not reproduce through the public API" % name[:90])
@@ -462,6 +665,9 @@ def check(run):
     bad = scenarios(run, nat)
     if bad and not run.violations:
         run.violation("validation-vector combine", "; ".join(bad[:2])[:700], dict(engine="validation-vector", replay="combine"))
+    bad = view_scenarios(run, nat)
+    if bad and not run.violations:
+        run.violation("validation-vector view", "; ".join(bad[:2])[:700], dict(engine="validation-vector", replay="view"))
     run.assumptions += [
         "strings are abstract identities (this code only compares, clones and - for text amounts - appends them)",
         "HashMap = a list of at most 3 entries with symbolic key equality; iteration order = entry order (the claims are order-insensitive)",
@@ -472,7 +678,8 @@ def check(run):
     run.bounds += ["merge: left/right maps of 0..2 x 1..2 entries (3 in the thorough tier)",
                    "combine: 2..3 ingredients x 2 distinct selected indices (up to 4 x 3 in the thorough tier), numeric amounts with units"]
     run.not_covered += [
-        "the FFI view half of C19: into_simple_recipe / into_item / section reference lists, deref_component, uniffi scaffolding - a full parse sits in front of them",
+        "view half: amounts / units of the carried-over components beyond presence (Number::value, Quantity::unit are uninterpreted), metadata, "
+        "deref_component, uniffi scaffolding; recipes with more than two sections / three blocks / two items per step",
         "combining range / text / unit-less amounts end to end (their merge step is decided; the selection loop is decided for numbers only)",
         "merge_ingredient_lists (Entry::or_default over the outer map) beyond its merge step",
     ]
@@ -484,8 +691,8 @@ def replay(run, path):
     scr.inject()
     nat = native.Native(scr)
     nat.build_bindings()
-    bad = scenarios(run, nat)
-    print("replay:", bad or "all combination scenarios as documented")
+    bad = scenarios(run, nat) + view_scenarios(run, nat)
+    print("replay:", bad or "all combination and view scenarios as documented")
     if bad:
         print("VIOLATION property=C19 replay=%s" % path)
         return 1
